@@ -340,7 +340,7 @@ Section Single.
     - injection H as <- _. eapply single_get; [|exact G]. apply single_next. exact S.
   Qed.
   Lemma single_flip b c : single c -> single (cu_set_backward b c).
-  Proof. intros (s & E). unfold single, cu_set_backward, cu_with_tree. cbn [cu_tree]. rewrite E. cbn. eauto. Qed.
+  Proof. intros (s & E). unfold single, cu_set_backward, cu_set_backward_v. cbn [cu_tree]. rewrite E. cbn. eauto. Qed.
 
   (* a cursor over the single leaf in state s stands for the slice of the flat list at the position of s *)
   Lemma single_cinv b s le n : lr_inv j s -> j_bk s = b ->
@@ -363,7 +363,7 @@ Section Single.
   Qed.
 
   (* SetBackward on a single-leaf cursor whose leaf stands settled: the cursor now stands for the slice in the other
-     direction at the same position; a valid buffer stays the head *)
+     direction at the same position; the filter's buffer is dropped (the next Get reads the leaf again) *)
   Lemma single_flip_spec b c L : CI b c L -> single c -> sett_l (cu_tree c) ->
     exists p, L = itm (rest_at (flat j) b p) /\ (if b then -1 <= p <= total j - 1 else 0 <= p <= total j) /\
       CI (negb b) (cu_set_backward (negb b) c)
@@ -373,29 +373,12 @@ Section Single.
     change (itm (rest_at (flat j) (j_bk s) (lr_pos j s)) = L) in C. rewrite B in C. exists (lr_pos j s). split; [symmetry; exact C|].
     pose proof (lr_pos_range j s Inv) as R. rewrite B in R. split; [exact R|].
     destruct (lr_flip_spec j s Inv St) as (Inv' & B' & P'). rewrite B in *.
-    unfold CI, cinv, cu_set_backward, cu_with_tree. cbn [cu_tree cu_flt cu_valid cu_le]. rewrite E.
+    unfold CI, cinv, cu_set_backward, cu_set_backward_v. cbn [code_drops_buffer cu_tree cu_flt cu_valid cu_le]. rewrite E.
     cbn [mx_set_backward l_set_backward wf leaf_ok].
     change (content leaf_rest (negb b) (MLeaf g (LR j (jit_set_backward (negb b) s)))) with (itm (rest_at (flat j) (j_bk (jit_set_backward (negb b) s)) (lr_pos j (jit_set_backward (negb b) s)))).
     rewrite B', P'.
     split; [split; [exact Inv'|reflexivity]|]. split; [reflexivity|]. split; [exact F|].
-    intros Hv. destruct (V Hv) as (Nf & _ & x & r & EL & El & Ea). split; [exact Nf|].
-    (* a valid buffer: the leaf stands on a record, at position p in range *)
-    assert (Rp : 0 <= lr_pos j s < total j).
-    { rewrite <- C in EL. destruct b.
-      - destruct (Z_lt_dec (lr_pos j s) 0); [rewrite rest_at_bwd_end in EL by lia; discriminate|lia].
-      - destruct (Z_lt_dec (lr_pos j s) (total j)); [lia|]. rewrite rest_at_fwd_end in EL by (unfold total in *; lia). discriminate. }
-    split.
-    - cbn [sett_l]. unfold lr_settled in *. unfold jit_set_backward. destruct (Bool.eqb (j_bk s) (negb b)); [exact St|].
-      cbn [j_ci j_cid]. destruct (j_ci s) as [ci|] eqn:Ec; cbn [option_map ci_set_backward ci_pos]; [exact St|].
-      exfalso. destruct Inv as (W & _). pose proof (lr_eof_pos j s W Ec St) as Pe. rewrite B in Pe. destruct b; lia.
-    - destruct (rest_at_zip (flat j) (lr_pos j s)) as (y & Hb & Hf & _); [unfold total in Rp; lia|].
-      assert (y = fst x).
-      { rewrite <- C in EL. destruct b; [rewrite Hb in EL|rewrite Hf in EL]; cbn in EL; injection EL as <- _; reflexivity. }
-      assert (Hx : x = (y, g)).
-      { rewrite <- C in EL. destruct b; [rewrite Hb in EL|rewrite Hf in EL]; cbn in EL; injection EL as <- _; reflexivity. }
-      destruct b; cbn [negb].
-      + replace (Z.max (lr_pos j s) 0) with (lr_pos j s) by lia. rewrite Hf. cbn [itm map]. eexists _, _. split; [rewrite Hx; reflexivity|]. split; [exact El|exact Ea].
-      + replace (Z.min (lr_pos j s) (total j - 1)) with (lr_pos j s) by lia. rewrite Hb. cbn [itm map]. eexists _, _. split; [rewrite Hx; reflexivity|]. split; [exact El|exact Ea].
+    rewrite F. destruct f as [fl|]; [discriminate|]. intros Hv. destruct (V Hv) as (Nf & _). congruence.
   Qed.
 End Single.
 
@@ -413,22 +396,82 @@ Proof.
   rewrite G. destruct (cu_get_spec rest ok b Hget Hnext f sett Hsett L' fuel c2 I') as (c3 & G3 & _); [lia|]. rewrite G3. eauto.
 Qed.
 
+(* the shape of Offset for the code's variant: a settling Get first *)
+Lemma cu_offset_pos fuel (k : nat) c :
+  cu_offset fuel (Z.of_nat (S k)) c =
+  match cu_get fuel c with None => None | Some (c0, _) => option_map fst (offset_loop fuel (S k) c0 None) end.
+Proof.
+  unfold cu_offset, cu_offset_v. cbn [code_settles_offset].
+  destruct (Z.eqb_spec (Z.of_nat (S k)) 0); [lia|]. destruct (Z.gtb_spec (Z.of_nat (S k)) 0); [|lia]. rewrite Nat2Z.id.
+  destruct (cu_get fuel c) as [[c0 r]|]; reflexivity.
+Qed.
+Lemma cu_offset_neg fuel (k : nat) c :
+  cu_offset fuel (- Z.of_nat (S k)) c =
+  match cu_get fuel c with
+  | None => None
+  | Some (c0, _) =>
+      match cu_get fuel c0 with
+      | None => None
+      | Some (c1, r) =>
+          let pos := cu_current_pos c1 in
+          let c2 := cu_set_backward true c1 in
+          let start :=
+            match r with
+            | None => match cu_get fuel c2 with
+                      | None => None
+                      | Some (c3, _) => Some (c3, cu_current_pos c3, k)
+                      end
+            | Some _ => match iterate_to_pos fuel c2 pos with
+                        | None => None
+                        | Some c3 => Some (c3, pos, S k)
+                        end
+            end in
+          match start with
+          | None => None
+          | Some (c3, pos3, k3) =>
+              match offset_loop fuel k3 c3 pos3 with
+              | None => None
+              | Some (c4, pos4) => iterate_to_pos fuel (cu_set_backward false c4) pos4
+              end
+          end
+      end
+  end.
+Proof.
+  unfold cu_offset, cu_offset_v. cbn [code_settles_offset].
+  destruct (Z.eqb_spec (- Z.of_nat (S k)) 0); [lia|]. destruct (Z.gtb_spec (- Z.of_nat (S k)) 0); [lia|].
+  replace (Z.to_nat (- - Z.of_nat (S k))) with (S k) by lia. cbn [Nat.pred].
+  destruct (cu_get fuel c) as [[c0 r]|]; reflexivity.
+Qed.
+Lemma query_unfold fuel c offs limit :
+  query fuel c offs limit =
+  match cu_offset fuel offs c with
+  | None => None
+  | Some c1 => match page_loop fuel limit c1 with
+               | None => None
+               | Some (c2, xs) => match cu_get fuel c2 with None => None | Some (c3, _) => Some (cu_release c3, xs, positions c3) end
+               end
+  end.
+Proof. reflexivity. Qed.
+
 (* positive offsets, for every tree over contract leaves (merged or not), forward or backward:
-   OFFSET k then a page = the accepted events of the k-fold step of what the cursor stands for *)
+   OFFSET k then a page = the accepted events of what the cursor stands for, without the first k of them *)
 Lemma query_positive (rest : leaf -> list ev) (ok : leaf -> Prop) (b : bool) (f : option flt) (sett : mtree -> Prop) (Hget : forall l, ok l -> ok (fst (l_get l)) /\ rest (fst (l_get l)) = rest l /\ snd (l_get l) = hd_error (rest l))
   (Hnext : forall l, ok l -> ok (l_next l) /\ rest (l_next l) = tl (rest l))
   (Hsett : forall t, wf rest ok b t -> sett (fst (mx_get t))) c L fuel (k : nat) limit :
   cinv rest ok b f sett c L -> (length L < fuel)%nat ->
-  exists c' ps, query fuel c (Z.of_nat k) limit = Some (c', firstn limit (filter (acc f) (iter_step f k L)), ps).
+  exists c' ps, query fuel c (Z.of_nat k) limit = Some (c', firstn limit (skipn k (filter (acc f) L)), ps).
 Proof.
-  intros Inv Hf. unfold query, cu_offset. destruct k as [|k].
-  - cbn [Z.of_nat Z.eqb iter_step]. apply (query_tail_part rest ok b f sett Hget Hnext Hsett); assumption.
-  - destruct (Z.eqb_spec (Z.of_nat (S k)) 0); [lia|]. destruct (Z.gtb_spec (Z.of_nat (S k)) 0); [|lia]. rewrite Nat2Z.id.
-    destruct (offset_loop_spec rest ok b Hget Hnext f sett Hsett (S k) L fuel c None Inv Hf) as (c1 & p1 & G & I1 & _).
+  intros Inv Hf. rewrite query_unfold. destruct k as [|k].
+  - unfold cu_offset, cu_offset_v. cbn [Z.of_nat Z.eqb skipn]. apply (query_tail_part rest ok b f sett Hget Hnext Hsett); assumption.
+  - rewrite cu_offset_pos.
+    destruct (cu_get_spec rest ok b Hget Hnext f sett Hsett L fuel c Inv Hf) as (c0 & G0 & I0 & _). rewrite G0.
+    assert (Hf0 : (length (drop_rej f L) < fuel)%nat) by (pose proof (drop_rej_length f L); lia).
+    destruct (offset_loop_spec rest ok b Hget Hnext f sett Hsett (S k) _ fuel c0 None I0 Hf0) as (c1 & p1 & G & I1 & _).
     rewrite G. cbn [option_map fst].
-    assert (Hl : (length (iter_step f (S k) L) < fuel)%nat).
-    { clear - Hf. revert L Hf. induction (S k) as [|n IH]; intros L Hf; [exact Hf|]. cbn [iter_step]. apply IH. pose proof (step_length f L). lia. }
-    apply (query_tail_part rest ok b f sett Hget Hnext Hsett); assumption.
+    assert (Hl : (length (iter_step f (S k) (drop_rej f L)) < fuel)%nat).
+    { clear - Hf0. revert Hf0. generalize (drop_rej f L). induction (S k) as [|n IH]; intros L0 Hf; [exact Hf|]. cbn [iter_step]. apply IH. pose proof (step_length f L0). lia. }
+    destruct (query_tail_part rest ok b f sett Hget Hnext Hsett c1 _ fuel limit I1 Hl) as (c' & ps & E). rewrite E.
+    rewrite iter_step_settled by (apply drop_rej_head). rewrite drop_rej_filter. eauto.
 Qed.
 
 Lemma skipn_nil_length {A} : forall n (l : list A), skipn n l = [] -> (length l <= n)%nat.
@@ -465,15 +508,18 @@ Section SingleTail.
     set (c0 := mkCur (MLeaf g (LR j (mkJit MaxU64 MaxU32 None false))) f None false 1) in *.
     destruct k as [|k].
     - (* no offset: nothing is read at the tail *)
-      unfold query, cu_offset. cbn [Z.of_nat Z.opp Z.eqb].
+      rewrite query_unfold. unfold cu_offset, cu_offset_v. cbn [Z.of_nat Z.opp Z.eqb].
       destruct (query_tail_part leaf_rest (leaf_ok false) false f sett_l (Hg false) (Hn false) (sett_l_get false) c0 [] fuel limit I0) as (c' & ps & E); [cbn; lia|].
       rewrite E. cbn [filter]. exists c', ps. unfold lastn. rewrite Nat.sub_0_r, skipn_all. destruct limit; reflexivity.
-    - unfold query, cu_offset. destruct (Z.eqb_spec (- Z.of_nat (S k)) 0); [lia|]. destruct (Z.gtb_spec (- Z.of_nat (S k)) 0); [lia|].
-      replace (Z.to_nat (- - Z.of_nat (S k))) with (S k) by lia.
-      (* the settling Get at the tail: io.EOF *)
-      destruct (cu_get_spec leaf_rest (leaf_ok false) false (Hg false) (Hn false) f sett_l (sett_l_get false) [] fuel c0 I0) as (c1 & G1 & I1 & N1 & S1 & _); [cbn; lia|].
-      rewrite G1. cbn [drop_rej hd_error] in *.
-      assert (Sg1 : single g j c1) by (eapply single_get; [|exact G1]; unfold single, c0; cbn; eauto).
+    - rewrite query_unfold, cu_offset_neg.
+      (* the settling Get at the tail, twice: io.EOF *)
+      destruct (cu_get_spec leaf_rest (leaf_ok false) false (Hg false) (Hn false) f sett_l (sett_l_get false) [] fuel c0 I0) as (c0' & G0 & I0' & N0 & _ & _); [cbn; lia|].
+      rewrite G0. cbn [drop_rej hd_error] in *.
+      assert (Sg0 : single g j c0') by (eapply single_get; [|exact G0]; unfold single, c0; cbn; eauto).
+      destruct (cu_get_spec leaf_rest (leaf_ok false) false (Hg false) (Hn false) f sett_l (sett_l_get false) [] fuel c0' I0') as (c1 & G1 & I1 & N1' & S1 & _); [cbn; lia|].
+      rewrite G1. cbn [drop_rej hd_error] in *. cbv zeta.
+      assert (N1 : cu_n c1 = cu_n c0) by congruence.
+      assert (Sg1 : single g j c1) by (eapply single_get; eassumption).
       (* SetBackward(true): everything lies before the cursor *)
       destruct (single_flip_spec g j f false c1 [] I1 Sg1 S1) as (p1 & E1 & R1 & I2). cbn [negb] in I2.
       assert (P1 : Z.min p1 (total j - 1) = total j - 1).
@@ -484,7 +530,7 @@ Section SingleTail.
       (* Get: the last accepted event; then k times Next + Get *)
       destruct (cu_get_spec leaf_rest (leaf_ok true) true (Hg true) (Hn true) f sett_l (sett_l_get true) _ fuel c2 I2) as (c3 & G3 & I3 & N3 & S3 & _).
       { rewrite itm_length, rev_length. exact Hf. }
-      rewrite G3. cbn [Nat.pred].
+      rewrite G3.
       assert (Sg3 : single g j c3) by (eapply single_get; eassumption).
       destruct (offset_loop_spec leaf_rest (leaf_ok true) true (Hg true) (Hn true) f sett_l (sett_l_get true) k _ fuel c3 (cu_current_pos c3) I3) as (c4 & p4 & G4 & I4 & N4 & S4).
       { pose proof (drop_rej_length f (itm g (rev U))). rewrite itm_length, rev_length in *. lia. }
@@ -492,9 +538,9 @@ Section SingleTail.
       assert (Sg4 : single g j c4) by (eapply single_offset_loop; eassumption).
       assert (St4 : sett_l (cu_tree c4)).
       { destruct k as [|k']; [cbn in G4; injection G4 as <- _; exact S3|]. apply S4. discriminate. }
-      assert (Nc : cu_n c4 = 1%nat) by (rewrite N4, N3; unfold c2, cu_set_backward, cu_with_tree; cbn [cu_n]; rewrite N1; reflexivity).
+      assert (Nc : cu_n c4 = 1%nat) by (rewrite N4, N3; unfold c2, cu_set_backward, cu_set_backward_v; cbn [cu_n]; rewrite N1; reflexivity).
       (* SetBackward(false); iterateToPos is a no-op for one source *)
-      unfold iterate_to_pos. unfold cu_set_backward at 1, cu_with_tree at 1. cbn [cu_n]. rewrite Nc. cbn [Nat.leb orb].
+      unfold iterate_to_pos. unfold cu_set_backward at 1, cu_set_backward_v at 1. cbn [cu_n]. rewrite Nc. cbn [Nat.leb orb].
       destruct (single_flip_spec g j f true c4 _ I4 Sg4 St4) as (p5 & E5 & R5 & I5). cbn [negb] in I5.
       set (c5 := cu_set_backward false c4) in *.
       destruct (query_tail_part leaf_rest (leaf_ok false) false f sett_l (Hg false) (Hn false) (sett_l_get false) c5 _ fuel limit I5) as (c' & ps & E).
@@ -644,14 +690,18 @@ Section SingleInverse.
     { assert (Hv : length (itm g U) = length U) by (unfold itm; apply map_length).
       rewrite EV, Er in Hv. rewrite !app_length in Hv. cbn [length] in *. rewrite app_length in Hv. cbn [length] in Hv. lia. }
     (* Offset(-k): settling Get, SetBackward, iterateToPos (no-op), k steps back, SetBackward, iterateToPos (no-op) *)
-    unfold cu_offset. destruct (Z.eqb_spec (- Z.of_nat (S k)) 0); [lia|]. destruct (Z.gtb_spec (- Z.of_nat (S k)) 0); [lia|].
-    replace (Z.to_nat (- - Z.of_nat (S k))) with (S k) by lia.
+    rewrite cu_offset_neg.
+    assert (D1 : drop_rej f (e1 :: r1) = e1 :: r1) by (cbn; rewrite Ha1; reflexivity).
     destruct (cu_get_spec leaf_rest (leaf_ok false) false (leaf_get_spec false) (leaf_next_spec false) f sett_l (sett_l_get false) _ fuel c1 I1' HL1)
+      as (c1s & G1s & I1s & N1s & _ & _).
+    rewrite D1 in *. rewrite G1s.
+    assert (Sg1s : single g j c1s) by (eapply single_get; eassumption).
+    destruct (cu_get_spec leaf_rest (leaf_ok false) false (leaf_get_spec false) (leaf_next_spec false) f sett_l (sett_l_get false) _ fuel c1s I1s HL1)
       as (c1' & G1' & I1'' & N1' & St1' & _).
-    assert (D1 : drop_rej f (e1 :: r1) = e1 :: r1) by (cbn; rewrite Ha1; reflexivity). rewrite D1 in *. rewrite G1'. cbn [hd_error].
+    rewrite D1 in *. rewrite G1'. cbn [hd_error]. cbv zeta.
     assert (Sg1' : single g j c1') by (eapply single_get; eassumption).
     assert (Nc1 : cu_n c1' = 1%nat) by congruence.
-    unfold iterate_to_pos at 1. unfold cu_set_backward at 1, cu_with_tree at 1. cbn [cu_n]. rewrite Nc1. cbn [Nat.leb orb].
+    unfold iterate_to_pos at 1. unfold cu_set_backward at 1, cu_set_backward_v at 1. cbn [cu_n]. rewrite Nc1. cbn [Nat.leb orb].
     destruct (single_flip_spec g j f false c1' _ I1'' Sg1' St1') as (q1 & Eq1 & Rq1 & I2). cbn [negb] in I2.
     assert (Hq1 : q1 < total j).
     { destruct (Z_lt_dec q1 (total j)); [assumption|]. rewrite rest_at_fwd_end in Eq1 by (unfold total in *; lia). discriminate. }
@@ -668,8 +718,8 @@ Section SingleInverse.
     rewrite G3.
     assert (Sg3 : single g j c3) by (eapply single_offset_loop; eassumption).
     destruct (S3 ltac:(discriminate)) as (St3 & _).
-    assert (Nc3 : cu_n c3 = 1%nat) by (rewrite N3; unfold c2, cu_set_backward, cu_with_tree; cbn [cu_n]; exact Nc1).
-    unfold iterate_to_pos. unfold cu_set_backward at 1, cu_with_tree at 1. cbn [cu_n]. rewrite Nc3. cbn [Nat.leb orb].
+    assert (Nc3 : cu_n c3 = 1%nat) by (rewrite N3; unfold c2, cu_set_backward, cu_set_backward_v; cbn [cu_n]; exact Nc1).
+    unfold iterate_to_pos. unfold cu_set_backward at 1, cu_set_backward_v at 1. cbn [cu_n]. rewrite Nc3. cbn [Nat.leb orb].
     (* the backward list: e1 :: rev P ++ e0 :: rev A0; k+1 steps lead to e0 *)
     assert (EA1 : itm g (firstn (Z.to_nat q1) U) = A0 ++ e0 :: P).
     { assert (E' : itm g U = itm g (firstn (Z.to_nat q1) U) ++ e1 :: r1).
@@ -713,15 +763,20 @@ Section SingleInverse.
     assert (Hlen : forall b p, (length (itm g (rest_at U b p)) <= length U)%nat).
     { intros b p. unfold itm. rewrite map_length. unfold rest_at. destruct b; [rewrite rev_length, firstn_length; lia|rewrite skipn_length; lia]. }
     assert (HL0 : (length (e0 :: r) < fuel)%nat) by (rewrite <- C0; pose proof (Hlen false (lr_pos j s0)); lia).
-    (* Offset(+k) *)
-    unfold cu_offset at 1. destruct (Z.eqb_spec (Z.of_nat k) 0); [lia|]. destruct (Z.gtb_spec (Z.of_nat k) 0); [|lia]. rewrite Nat2Z.id.
-    destruct (offset_loop_spec leaf_rest (leaf_ok false) false (leaf_get_spec false) (leaf_next_spec false) f sett_l (sett_l_get false) k _ fuel c None I0 HL0)
+    (* Offset(+k): the settling Get stays on e0 *)
+    destruct k as [|k]; [lia|]. rewrite cu_offset_pos.
+    assert (D0 : drop_rej f (e0 :: r) = e0 :: r) by (cbn; rewrite Ha; reflexivity).
+    destruct (cu_get_spec leaf_rest (leaf_ok false) false (leaf_get_spec false) (leaf_next_spec false) f sett_l (sett_l_get false) _ fuel c I0 HL0)
+      as (cs & Gs & Is & Ns & _ & _).
+    rewrite D0 in *. rewrite Gs.
+    assert (Sgs : single g j cs) by (eapply single_get; [exists s0; exact E0|exact Gs]).
+    destruct (offset_loop_spec leaf_rest (leaf_ok false) false (leaf_get_spec false) (leaf_next_spec false) f sett_l (sett_l_get false) (S k) _ fuel cs None Is HL0)
       as (c1 & p1 & G1 & I1 & N1 & S1).
     rewrite G1. cbn [option_map fst]. exists c1. split; [reflexivity|]. split; [exact I1|]. intros e1 r1 E1.
-    assert (Sg1 : single g j c1) by (eapply single_offset_loop; [exists s0; exact E0|exact G1]).
+    assert (Sg1 : single g j c1) by (eapply single_offset_loop; [exact Sgs|exact G1]).
     destruct (S1 ltac:(lia)) as (St1 & _).
     (* the lists: V = A0 ++ e0 :: P ++ e1 :: r1 with k-1 accepted events in P *)
-    destruct k as [|k]; [lia|]. cbn [iter_step] in E1. unfold step in E1. cbn [tl] in E1.
+    cbn [iter_step] in E1. unfold step in E1. cbn [tl] in E1.
     pose proof (seek_spec f k r) as Sk. rewrite E1 in Sk. destruct Sk as (P & Er & Ha1 & HlP).
     assert (I1' : CIb false c1 (e1 :: r1)) by (cbn [iter_step] in I1; unfold step in I1; cbn [tl] in I1; rewrite E1 in I1; exact I1).
     assert (EV : itm g U = itm g (firstn (Z.to_nat (lr_pos j s0)) U) ++ e0 :: r).
@@ -746,14 +801,18 @@ Section SingleInverse.
     { induction n as [|n IH]; intros L; [cbn; lia|]. cbn [iter_step]. pose proof (IH (step f L)). pose proof (step_length f L). lia. }
     (* Offset(+i) *)
     assert (Pa : exists La, CIb false ca La /\ single g j ca /\ cu_n ca = 1%nat /\ exists A, itm g U = A ++ La).
-    { unfold cu_offset in Ga. destruct i as [|i].
-      - cbn in Ga. injection Ga as <-. exists (itm g U). split; [exact I0|]. split; [exists (jit_at 0 0); reflexivity|]. split; [reflexivity|]. exists []. reflexivity.
-      - destruct (Z.eqb_spec (Z.of_nat (S i)) 0); [lia|]. destruct (Z.gtb_spec (Z.of_nat (S i)) 0); [|lia]. rewrite Nat2Z.id in Ga.
-        destruct (offset_loop_spec leaf_rest (leaf_ok false) false (leaf_get_spec false) (leaf_next_spec false) f sett_l (sett_l_get false) (S i) _ fuel c0 None I0)
-          as (c1 & p1 & G1 & I1 & N1 & _); [lia|].
+    { destruct i as [|i].
+      - unfold cu_offset, cu_offset_v in Ga. cbn in Ga. injection Ga as <-. exists (itm g U). split; [exact I0|]. split; [exists (jit_at 0 0); reflexivity|]. split; [reflexivity|]. exists []. reflexivity.
+      - rewrite cu_offset_pos in Ga.
+        destruct (cu_get_spec leaf_rest (leaf_ok false) false (leaf_get_spec false) (leaf_next_spec false) f sett_l (sett_l_get false) _ fuel c0 I0)
+          as (cs & Gs & Is & Ns & _ & _); [lia|].
+        rewrite Gs in Ga.
+        destruct (offset_loop_spec leaf_rest (leaf_ok false) false (leaf_get_spec false) (leaf_next_spec false) f sett_l (sett_l_get false) (S i) _ fuel cs None Is)
+          as (c1 & p1 & G1 & I1 & N1 & _); [pose proof (drop_rej_length f (itm g U)); lia|].
         rewrite G1 in Ga. cbn in Ga. injection Ga as <-. eexists. split; [exact I1|].
-        split; [eapply single_offset_loop; [|exact G1]; exists (jit_at 0 0); reflexivity|]. split; [exact N1|].
-        apply iter_step_suffix. }
+        split; [eapply single_offset_loop; [|exact G1]; eapply single_get; [|exact Gs]; exists (jit_at 0 0); reflexivity|]. split; [rewrite N1, Ns; reflexivity|].
+        destruct (drop_rej_suffix f (itm g U)) as (B & EB). destruct (iter_step_suffix f (S i) (drop_rej f (itm g U))) as (A & EA).
+        exists (B ++ A). rewrite <- app_assoc, <- EA. exact EB. }
     destruct Pa as (La & Ia & Sga & Na & A & EA).
     assert (HLa : (length La < fuel)%nat) by (rewrite EA, app_length in HU; lia).
     (* Get = e0 *)
@@ -764,18 +823,24 @@ Section SingleInverse.
     destruct (drop_rej_split f La e0 r Ed) as (P0 & EL & _ & _).
     assert (Sgb : single g j cb') by (eapply single_get; eassumption).
     assert (HLb : (length (e0 :: r) < fuel)%nat) by (pose proof (drop_rej_length f La); rewrite Ed in *; lia).
-    (* Offset(+k) *)
-    unfold cu_offset in Gc. destruct (Z.eqb_spec (Z.of_nat k) 0); [lia|]. destruct (Z.gtb_spec (Z.of_nat k) 0); [|lia]. rewrite Nat2Z.id in Gc.
-    destruct (offset_loop_spec leaf_rest (leaf_ok false) false (leaf_get_spec false) (leaf_next_spec false) f sett_l (sett_l_get false) k _ fuel cb' None Ib HLb)
+    (* Offset(+k): the settling Get stays on e0 *)
+    destruct k as [|k]; [lia|]. rewrite cu_offset_pos in Gc.
+    assert (D0 : drop_rej f (e0 :: r) = e0 :: r) by (cbn; rewrite Ha; reflexivity).
+    destruct (cu_get_spec leaf_rest (leaf_ok false) false (leaf_get_spec false) (leaf_next_spec false) f sett_l (sett_l_get false) _ fuel cb' Ib HLb)
+      as (cs & Gs & Is & Ns & _ & _).
+    rewrite D0 in *. rewrite Gs in Gc.
+    assert (Sgs : single g j cs) by (eapply single_get; eassumption).
+    destruct (offset_loop_spec leaf_rest (leaf_ok false) false (leaf_get_spec false) (leaf_next_spec false) f sett_l (sett_l_get false) (S k) _ fuel cs None Is HLb)
       as (c1 & p1 & G1 & I1 & N1 & _).
     rewrite G1 in Gc. cbn in Gc. injection Gc as <-.
     assert (Sgc : single g j c1) by (eapply single_offset_loop; eassumption).
     (* Get = e1 *)
     destruct (cu_get_spec leaf_rest (leaf_ok false) false (leaf_get_spec false) (leaf_next_spec false) f sett_l (sett_l_get false) _ fuel c1 I1)
-      as (cd' & Gd' & Id & Nd & _); [pose proof (Hit k (e0 :: r)); lia|].
+      as (cd' & Gd' & Id & Nd & _); [pose proof (Hit (S k) (e0 :: r)); lia|].
     rewrite Gd' in Gd. injection Gd as <- Hh.
-    rewrite (drop_rej_settled f) in Id, Hh by (apply iter_step_head; exact Ha).
-    destruct k as [|k]; [lia|]. cbn [iter_step] in Id, Hh. unfold step in Id, Hh. cbn [tl] in Id, Hh.
+    rewrite (drop_rej_settled f) in Id by (apply iter_step_head; exact Ha).
+    rewrite (drop_rej_settled f) in Hh by (apply iter_step_head; first [exact Ha|unfold step; apply drop_rej_head]).
+    cbn [iter_step] in Id, Hh. unfold step in Id, Hh. cbn [tl] in Id, Hh.
     pose proof (seek_spec f k r) as Sk. destruct (iter_step f k (drop_rej f r)) as [|y r1] eqn:E1; [discriminate|]. cbn in Hh. injection Hh as ->.
     destruct Sk as (P & Er & Ha1 & HlP).
     assert (Sgd : single g j cd') by (eapply single_get; eassumption).
